@@ -137,6 +137,22 @@ CLAIMED["C13"] = (
     "the verdict is deliberately silent (unspecified) on text outside the documented grammar that the statement does not list; "
     "trusted: TLC", "6 C13")
 
+CLAIMED["C15"] = (
+    "TLA+ spec RuxURL (Subst then Decomps over the pattern semantics of RuxPattern; name table = last writer) model-checked over "
+    "every named pattern x value assignment and every naming program; each case replayed as BuildURL -> String -> http.NewRequest -> "
+    "Match on the real router in all three argument styles",
+    "15 named patterns (static, default/custom/global classes, '.' literals) x all assignments from per-class value sets incl. inner "
+    "space, non-ASCII, '%', '?', '#', '/' (for .* and .+): RoundTrip holds in the spec; the real URL is routed to the same route with "
+    "the same values; 0-2 extra arguments arrive as query parameters; naming programs of <=3/4 calls over the four naming APIs.",
+    "precondition: built path is a normalisation fixed point and decomposes uniquely (others counted as skipped); trusted: TLC, net/url", "6 C15")
+CLAIMED["C16"] = (
+    "TLA+ spec RuxResource (documented table vs the registration loop of Router.Resource composed with group path normalisation; "
+    "probe resolution with static-beats-dynamic) model-checked for all 128 action subsets; replayed with 256 generated controller types",
+    "All 128 subsets of {Index..Delete} x 3 base paths: operational table = documented table; for every subset the real router "
+    "(with and without Uses()) must list exactly the documented method/path/name triples and serve 9 methods x 7 probe paths by the "
+    "predicted action with only that action's middleware; non-pointer / non-struct controllers must be rejected.",
+    "generated controllers; resource name = lower-cased type name; trusted: TLC, reflect", "6 C16")
+
 PENDING = {}
 
 
